@@ -441,7 +441,7 @@ fn rand_expr(rng: &mut Rng, depth: u32, nleaves: usize) -> E {
 pub fn run(args: &Args, sink: &mut Sink, rng: &mut Rng, budget: &mut FullBudget) {
     let rt = tokio::runtime::Builder::new_multi_thread().worker_threads(2).enable_all().build().unwrap();
     let mut s = Stream::new("eval", REQ, "chk_eval", "iexpr * list (option (N * treemap))", "outcome result_obs");
-    s.shard = 1200;
+    s.shard = 600;
     let q = |i| Box::new(E::Q(i));
     // ---- the full table: NOT x 3 kinds, AND / OR x 3 x 3 kinds, over every pair of small maps
     let small = all_specs(&[0, 1], &[0], false); // 9 maps: per fragment absent / Full / {0}
